@@ -34,7 +34,7 @@ def run(ctx):
     ctx.do(SI.rule_of1)
     ctx.do(DG.rule_hd1)
     ctx.do(CA.rule_c2, "ProjectiveObject")
-    ctx.do(SH.rule_sh5, only={"Point.unit_tangent_towards", "Point.distance", "Point.origin_to", "TangentVector.origin_to"})
+    ctx.do(SH.rule_sh5, only={"Point.unit_tangent_towards", "Point.distance", "Point.origin_to", "TangentVector.origin_to", "None.sl2_iso"})
     ctx.do(u1, ENTRIES + [
         (HYP, "Point.unit_tangent_towards"), (HYP, "Point.distance"),
         (HYP, "Point.origin_to"), (HYP, "TangentVector.origin_to"),
